@@ -2,6 +2,7 @@ package aggregator
 
 import (
 	"crypto/md5"
+	"errors"
 	"fmt"
 	"sort"
 	"sync"
@@ -12,6 +13,9 @@ import (
 	"github.com/grafana/carbon-relay-ng/matcher"
 	"github.com/grafana/carbon-relay-ng/stats"
 )
+
+var errIntervalZero = errors.New("aggregation interval must be greater than 0")
+var errNoRegex = errors.New("aggregation needs a regex")
 
 type Aggregator struct {
 	Fun          string `json:"fun"`
@@ -54,6 +58,9 @@ type msg struct {
 
 // New creates an aggregator
 func New(fun string, matcher matcher.Matcher, outFmt string, cache bool, interval, wait uint, dropRaw bool, out chan []byte) (*Aggregator, error) {
+	if interval == 0 {
+		return nil, errIntervalZero
+	}
 	ticker := clock.AlignedTick(time.Duration(interval)*time.Second, time.Duration(wait)*time.Second, 2)
 	return NewMocked(fun, matcher, outFmt, cache, interval, wait, dropRaw, out, 2000, time.Now, ticker)
 }
@@ -62,6 +69,12 @@ func NewMocked(fun string, matcher matcher.Matcher, outFmt string, cache bool, i
 	procConstr, err := GetProcessorConstructor(fun)
 	if err != nil {
 		return nil, err
+	}
+	if interval == 0 {
+		return nil, errIntervalZero
+	}
+	if matcher.Regex == "" {
+		return nil, errNoRegex
 	}
 
 	a := &Aggregator{
